@@ -48,6 +48,30 @@ CHECKS = {
         "Flags are asserted against the rule applied to the SDK-reported values, which are themselves compared with exact values. Values exactly at bound+-1e-7 are outside the alphabet (skipped_too_close_to_threshold must be 0).",
         "bounded exhaustive enumeration of (instance, state) on the real code vs reference evaluator",
     ),
+    "C06": (
+        "model_checking",
+        "Every Samples message with k sample ids (every ordered set partition of the ids into entries x every assignment of one of 4 pool states to each entry; the pool contains a state omitting the irrelevant variable, two different states with equal objective and constraint values, and a duplicate; k<=3 quick / k<=4 thorough in full, k=5,6 over a 2-state pool, k=7,8 structured; plus every add_sample insertion order for k=3) over an instance family (irrelevant-variable bound shapes, pre-fixed variable, dependency none/single/chain, active+removed constraints), through the real evaluate_samples and SampleSet::get; each extracted Solution compared field by field (and as a whole message) with Instance::evaluate of that sample's state; objective/feasibility/constraint tables must be keyed by exactly the submitted ids.",
+        "Differential oracle: Instance::evaluate, itself verified against the reference evaluator by C05. All pool states are valid for evaluate.",
+        "bounded exhaustive enumeration of Samples messages (all groupings) on the real code, differential vs the single-state path",
+    ),
+    "C09": (
+        "model_checking",
+        "Product of objectives(10) x active constraint lists (0..3; functions absent/constant/linear/quadratic; both equalities) x pre-existing removed lists (0..2) x {two non-contiguous variable-id layouts, dependency, hints, sense} through penalty_method and uniform_penalty_method. Oracle: no active constraint left; every input constraint (previously removed ones included) kept with unchanged id/function/equality; one fresh weight parameter per penalised constraint tagged with its id, ids distinct from variable ids; variables/sense/dependencies carried over; objective == f + sum w_c*g_c^2 (resp. w*sum g_c^2) as a POLYNOMIAL IDENTITY in (x, w) computed in exact rationals (implies equality at every state and weight), plus with_parameters+evaluate on a weight x state grid.",
+        "Penalised constraints are the input's active ones (already-removed constraints are kept, not penalised). Unset-oneof objectives are outside the alphabet (documented panic of Function arithmetic).",
+        "bounded exhaustive enumeration of instances on the real code vs exact polynomial identity",
+    ),
+    "C10": (
+        "model_checking",
+        "Parametric instances whose objective and constraints range over the full representation alphabet (decision ids {1,2}, parameter ids {10,11}; declared sets {10,11} and {10,11,12} so a declared parameter may be unused or occur only in a removed constraint) x parameter assignments {complete, complete+unrelated extra, with a zero value, each single declared parameter missing, empty, unrelated id only} through with_parameters. Oracle: exact partial evaluation of objective and active constraints; decision variables, sense, removed constraints, hints, dependencies unchanged; supplied values recorded; Err iff a declared parameter is missing; evaluate(x) == parametric functions at (x,p). Instance->ParametricInstance->with_parameters({}) round trip compared as problems.",
+        "Trusted: Poly.partial. Previous `parameters` of an Instance are dropped by the conversion by documented design and are not compared.",
+        "bounded exhaustive enumeration of (parametric instance, assignment) on the real code vs exact partial evaluation",
+    ),
+    "C11": (
+        "model_checking",
+        "Every objective message of the C01 representation alphabet over 3 binary variables (~10^5 messages: repeated ids inside monomials, x^2, cancelling terms, split constants, explicit zeros, lower/upper triangle) and deterministic all-monomial families for n=4..12, degree<=4: the PUBO dictionary and the QUBO matrix+offset are evaluated on ALL 2^n assignments in exact arithmetic against the objective; keys canonical (i<=j, strictly increasing sets), no stored zero coefficient, no duplicate key. Every refusal condition on every base: active constraint, maximise, each used variable made integer / continuous, >2 distinct variables (QUBO); a removed constraint alone must not refuse.",
+        "Refusal is not asserted for terms whose coefficient is exactly zero (property leaves it open). Sense unspecified is outside the alphabet.",
+        "bounded exhaustive enumeration of objectives x all binary assignments on the real code vs exact evaluation",
+    ),
 }
 
 NOT_YET = "check not yet implemented in this revision of /verif (planned in DESIGN.md section 5)"
